@@ -33,13 +33,23 @@ import (
 	"golang.org/x/image/font/gofont/goregular"
 	"golang.org/x/image/font/gofont/gosmallcaps"
 
+	"seehuhn.de/go/postscript/funit"
+
 	"seehuhn.de/go/sfnt"
 	"seehuhn.de/go/sfnt/cff"
 	"seehuhn.de/go/sfnt/glyf"
 	"seehuhn.de/go/sfnt/glyph"
+	"seehuhn.de/go/sfnt/head"
 	"seehuhn.de/go/sfnt/header"
 	"seehuhn.de/go/sfnt/internal/debug"
+	"seehuhn.de/go/sfnt/kern"
+	"seehuhn.de/go/sfnt/maxp"
+	"seehuhn.de/go/sfnt/opentype/classdef"
+	"seehuhn.de/go/sfnt/opentype/gdef"
+	"seehuhn.de/go/sfnt/opentype/gtab"
+	"seehuhn.de/go/sfnt/os2"
 	"seehuhn.de/go/sfnt/parser"
+	"seehuhn.de/go/sfnt/post"
 )
 
 var errInjected = errors.New("injected I/O fault")
@@ -1242,6 +1252,278 @@ func cffReadCases(c *Ctx, spec string) {
 	}
 }
 
+// ---------------------------------------------------------------- table decoders on failing sources
+
+// tableSrc is a source over one table that fails with a non-EOF error from offset k on:
+//
+//	"next"   delivers data[pos:k] and fails on the following call: (0, err)
+//	"nerr"   delivers the last bytes before k together with the error: (n > 0, err)
+//	"strict" fails a Read whose range reaches k as a whole, delivering nothing
+//
+// hit records whether the error was ever handed to the decoder.
+type tableSrc struct {
+	data    []byte
+	k       int
+	variant string
+	pos     int64
+	hit     bool
+}
+
+func (r *tableSrc) Size() int64 { return int64(len(r.data)) }
+func (r *tableSrc) Seek(off int64, whence int) (int64, error) {
+	switch whence {
+	case io.SeekCurrent:
+		off += r.pos
+	case io.SeekEnd:
+		off += int64(len(r.data))
+	}
+	if off < 0 {
+		return 0, errors.New("negative position")
+	}
+	r.pos = off
+	return off, nil
+}
+func (r *tableSrc) Read(p []byte) (int, error) {
+	if len(p) == 0 {
+		return 0, nil
+	}
+	if r.pos >= int64(len(r.data)) && r.k >= len(r.data) {
+		return 0, io.EOF
+	}
+	if r.pos >= int64(r.k) || (r.variant == "strict" && r.pos+int64(len(p)) > int64(r.k)) {
+		r.hit = true
+		return 0, errInjected
+	}
+	n := copy(p, r.data[r.pos:r.k])
+	r.pos += int64(n)
+	if r.variant == "nerr" && r.pos >= int64(r.k) {
+		r.hit = true
+		return n, errInjected
+	}
+	return n, nil
+}
+
+var decoders = map[string]func(r *tableSrc) error{
+	"head": func(r *tableSrc) error { _, err := head.Read(onlyReader{r}); return err },
+	"maxp": func(r *tableSrc) error { _, err := maxp.Read(onlyReader{r}); return err },
+	"OS/2": func(r *tableSrc) error { _, err := os2.Read(onlyReader{r}); return err },
+	"post": func(r *tableSrc) error { _, err := post.Read(r); return err },
+	"kern": func(r *tableSrc) error { _, err := kern.Read(r); return err },
+	"CFF ": func(r *tableSrc) error { _, err := cff.Read(r); return err },
+	"GDEF": func(r *tableSrc) error { _, err := gdef.Read(r); return err },
+	"GSUB": func(r *tableSrc) error { _, err := gtab.Read(r, gtab.TypeGsub); return err },
+	"GPOS": func(r *tableSrc) error { _, err := gtab.Read(r, gtab.TypeGpos); return err },
+}
+
+var tableCache = map[string][]byte{}
+
+// getTable: "<file spec>#<tag>" is that table of that corpus file; "syn:<tag>" a table encoded
+// from a small value built here (kern, GDEF, GPOS: the Go fonts have none).
+func getTable(spec string) (tag string, data []byte) {
+	if strings.HasPrefix(spec, "syn:") {
+		tag = spec[4:]
+	} else {
+		tag = spec[strings.LastIndexByte(spec, '#')+1:]
+	}
+	fontMu.Lock()
+	d, ok := tableCache[spec]
+	fontMu.Unlock()
+	if ok {
+		return tag, d
+	}
+	if strings.HasPrefix(spec, "syn:") {
+		pairs := kern.Info{}
+		for i := 0; i < 40; i++ {
+			pairs[glyph.Pair{Left: glyph.ID(1 + i%7), Right: glyph.ID(2 + i/7)}] = funit.Int16(10 * (i - 20))
+		}
+		switch tag {
+		case "kern":
+			d = pairs.Encode()
+		case "GDEF":
+			cls := classdef.Table{}
+			for i := 1; i < 60; i++ {
+				cls[glyph.ID(i*3)] = uint16(1 + i%3)
+			}
+			d = (&gdef.Table{GlyphClass: cls}).Encode()
+		case "GPOS":
+			// as sfnt.Read builds it from a kern table
+			sub := gtab.Gpos2_1{}
+			for pair, val := range pairs {
+				sub[pair] = &gtab.PairAdjust{First: &gtab.GposValueRecord{XAdvance: val}}
+			}
+			info := &gtab.Info{
+				ScriptList:  getFont("go:goregular").Gsub.ScriptList,
+				FeatureList: []*gtab.Feature{{Tag: "kern", Lookups: []gtab.LookupIndex{0}}},
+				LookupList: []*gtab.LookupTable{{Meta: &gtab.LookupMetaInfo{LookupType: 2},
+					Subtables: []gtab.Subtable{sub}}},
+			}
+			d = info.Encode()
+		default:
+			panic("unknown synthetic table " + spec)
+		}
+	} else {
+		i := strings.LastIndexByte(spec, '#')
+		file := getFile(spec[:i])
+		info, err := header.Read(bytes.NewReader(file))
+		if err != nil {
+			panic(err)
+		}
+		rec, ok := info.Toc[tag]
+		if !ok {
+			panic("no table " + spec)
+		}
+		d = file[rec.Offset : rec.Offset+rec.Length]
+	}
+	fontMu.Lock()
+	tableCache[spec] = d
+	fontMu.Unlock()
+	return tag, d
+}
+
+// decoderVerdict: E the decoder returned an error; n it returned a value and never saw the
+// injected error (the bytes from k on were not needed); A it returned a value although a read
+// had failed; P panic.
+func decoderVerdict(tag string, data []byte, k int, variant string) (v byte) {
+	src := &tableSrc{data: data, k: k, variant: variant}
+	defer func() {
+		if rec := recover(); rec != nil {
+			v = 'P'
+		}
+	}()
+	err := decoders[tag](src)
+	switch {
+	case err != nil:
+		return 'E'
+	case src.hit:
+		return 'A'
+	}
+	return 'n'
+}
+
+var decoderVariants = []string{"next", "nerr", "strict"}
+
+func init() {
+	// D: per k one character per variant: '.' the property holds (an error, or the failing part of
+	// the source was never read), 'A' a value was returned although a read had failed, 'P' panic
+	ops["faults.decoder"] = func(f Fields) string {
+		tag, data := getTable(f["tab"])
+		if len(data) != f.Int("len") {
+			return fmt.Sprintf("bad-len:%d", len(data))
+		}
+		var sb strings.Builder
+		for _, k := range parseKs(f) {
+			for _, variant := range decoderVariants {
+				v := decoderVerdict(tag, data, k, variant)
+				if v == 'E' || v == 'n' {
+					v = '.'
+				}
+				sb.WriteByte(v)
+			}
+		}
+		return sb.String()
+	}
+}
+
+// decoderCases: one table through its decoder, for every k < len and every failure variant.
+func decoderCases(c *Ctx, spec string) {
+	tag, data := getTable(spec)
+	if len(data) == 0 {
+		return
+	}
+	c.Stat("decoder_table_bytes", tag+":"+bucket(len(data)))
+	for _, ks := range blocks(0, len(data)-1) {
+		out := c.Case(Direct, "faults.decoder", fmt.Sprintf("tab=%s len=%d ks=%s", spec, len(data), ks), true)
+		var a int
+		fmt.Sscan(ks, &a)
+		if i := strings.IndexAny(out, "AP"); i >= 0 && len(out) <= 3*faultBlock {
+			c.Case(Direct, "faults.decoder", fmt.Sprintf("tab=%s len=%d ks=%d", spec, len(data), a+i/3), true)
+		}
+		for _, k := range parseKs(Fields{"ks": ks}) {
+			for _, variant := range decoderVariants {
+				switch decoderVerdict(tag, data, k, variant) {
+				case 'E':
+					c.Stat("decoder_"+tag, "error returned")
+				case 'n':
+					c.Stat("decoder_"+tag, "failing part not read, value returned")
+				case 'A':
+					c.Stat("decoder_"+tag, "VALUE RETURNED AFTER A FAILED READ")
+				case 'P':
+					c.Stat("decoder_"+tag, "PANIC")
+				}
+			}
+		}
+	}
+}
+
+// regionAt is a ReaderAt over data with an unreadable region [a, b): an access touching it
+// delivers the bytes before a (if any) and a non-EOF error.  This goes beyond the property's
+// quantifier (sources failing from an offset on) and is recorded as a diagnostic.
+type regionAt struct {
+	data []byte
+	a, b int
+	hit  bool
+}
+
+func (r *regionAt) ReadAt(p []byte, off int64) (int, error) {
+	if off < int64(r.b) && off+int64(len(p)) > int64(r.a) && off < int64(len(r.data)) {
+		r.hit = true
+		n := 0
+		if off < int64(r.a) {
+			n = copy(p, r.data[off:r.a])
+		}
+		return n, errInjected
+	}
+	return bytes.NewReader(r.data).ReadAt(p, off)
+}
+func (r *regionAt) Read(p []byte) (int, error) { panic("Read called on a ReaderAt source") }
+
+func init() {
+	// G: per region '.' (sfnt.Read returned an error, or never touched the region), 'A' a font was
+	// returned although an access had failed, 'P' panic
+	ops["faults.region"] = func(f Fields) string {
+		data := getFile(f["font"])
+		var sb strings.Builder
+		for _, reg := range f.List("regs", ",") {
+			var a, b int
+			fmt.Sscanf(reg, "%d:%d", &a, &b)
+			src := &regionAt{data: data, a: a, b: b}
+			v := readVerdict(src)
+			switch {
+			case v == 'A' && !src.hit, v == 'E':
+				v = '.'
+			}
+			sb.WriteByte(v)
+		}
+		return sb.String()
+	}
+}
+
+// regionCases: unreadable regions inside every table of a complete file.
+func regionCases(c *Ctx, fspec string) {
+	data := getFile(fspec)
+	ents, _, _, _ := layoutOf(data)
+	var regs []string
+	for _, e := range ents {
+		if e.len == 0 {
+			continue
+		}
+		add := func(a, b int) { regs = append(regs, fmt.Sprintf("%d:%d", a, b)) }
+		add(e.off, e.off+e.len)
+		add(e.off, e.off+1)
+		add(e.off+e.len-1, e.off+e.len)
+		step := max(1, e.len/24)
+		for j := 0; j < e.len; j += step {
+			add(e.off+j, e.off+e.len) // the table unreadable from its byte j on
+			add(e.off+j, e.off+j+1)
+		}
+	}
+	for i := 0; i < len(regs); i += 128 {
+		part := regs[i:min(i+128, len(regs))]
+		out := c.Case(Diagnostic, "faults.region", fmt.Sprintf("font=%s regs=%s ks=0-%d", fspec, strings.Join(part, ","), len(part)-1), true)
+		countVerdicts(c, "unreadable_region", out)
+	}
+}
+
 // ---------------------------------------------------------------- generator
 
 const faultBlock = 256
@@ -1622,6 +1904,19 @@ func areaFaults(c *Ctx) {
 	for _, j := range jobs[:min(len(jobs), max(c.N, 1))] {
 		j()
 	}
+	// the table decoders called directly on failing sources
+	ttf := fmt.Sprintf("sub:%d:%d:go:goregular|Write", r.Range(20, 60), r.Intn(1000000))
+	dspecs := []string{ttf + "#head", ttf + "#maxp", ttf + "#OS/2", ttf + "#post", "simple|Write#OS/2", "simple|Write#post",
+		"simple|Write#maxp", "syn:kern", "syn:GDEF", "syn:GPOS", "go:goregular|Write#GSUB"}
+	if c.Tier == "thorough" {
+		dspecs = append(dspecs, "go:goregular|Write#post", "go:goregular|Write#OS/2", "go:gomono|Write#head", "simple|Write#CFF ",
+			"raw:goregular#OS/2", "raw:goregular#post", "raw:goregular#head", "raw:goregular#maxp")
+	}
+	for _, sp := range dspecs {
+		decoderCases(c, sp)
+	}
+	regionCases(c, ttf)
+	regionCases(c, "simple|Write")
 	// tables larger than 1 MiB
 	bigCases(c, 0)
 	if c.Tier == "thorough" {
